@@ -256,9 +256,20 @@ impl QueryEngine {
         Ok(())
     }
 
+    /// Plan user-supplied SQL for the query interfaces, which are read-only: statements that
+    /// would write data (COPY, INSERT, ...), create / drop / replace tables and views, or
+    /// change the session (SET, PREPARE, ...) are rejected instead of being executed.
+    async fn plan_read_only(&self, sql: &str) -> Result<DataFrame> {
+        let options = SQLOptions::new()
+            .with_allow_ddl(false)
+            .with_allow_dml(false)
+            .with_allow_statements(false);
+        Ok(self.ctx.sql_with_options(sql, options).await?)
+    }
+
     /// Execute a SQL query
     pub async fn execute(&self, sql: &str) -> Result<Vec<RecordBatch>> {
-        let df = self.ctx.sql(sql).await?;
+        let df = self.plan_read_only(sql).await?;
         let batches = df.collect().await?;
         Ok(batches)
     }
@@ -271,7 +282,7 @@ impl QueryEngine {
         index_controller: Arc<crate::adaptive_index::AdaptiveIndexController>,
     ) -> Result<Vec<RecordBatch>> {
         // 1. Analyze query for filter predicates
-        let df = self.ctx.sql(sql).await?;
+        let df = self.plan_read_only(sql).await?;
         let plan = df.logical_plan();
         let filter_columns = Self::extract_filter_columns(plan);
 
@@ -367,14 +378,14 @@ impl QueryEngine {
         &self,
         sql: &str,
     ) -> Result<datafusion::physical_plan::SendableRecordBatchStream> {
-        let df = self.ctx.sql(sql).await?;
+        let df = self.plan_read_only(sql).await?;
         let stream = df.execute_stream().await?;
         Ok(stream)
     }
 
     /// Extract time range from a SQL query by analyzing the logical plan
     pub async fn extract_time_range(&self, sql: &str) -> Result<TimeRange> {
-        let df = self.ctx.sql(sql).await?;
+        let df = self.plan_read_only(sql).await?;
 
         // Bounds every selected row must satisfy (None = unbounded on that side)
         let (min_time, max_time) = Self::extract_time_bounds(df.logical_plan());
@@ -586,7 +597,7 @@ impl QueryEngine {
         &self,
         sql: &str,
     ) -> Result<Vec<crate::metadata::predicates::ColumnPredicate>> {
-        let df = self.ctx.sql(sql).await?;
+        let df = self.plan_read_only(sql).await?;
         let plan = df.logical_plan();
 
         let mut predicates = Vec::new();
@@ -743,7 +754,7 @@ impl QueryEngine {
 
     /// Analyze a query without executing
     pub async fn analyze(&self, sql: &str) -> Result<datafusion::logical_expr::LogicalPlan> {
-        let df = self.ctx.sql(sql).await?;
+        let df = self.plan_read_only(sql).await?;
         Ok(df.logical_plan().clone())
     }
 
@@ -754,7 +765,7 @@ impl QueryEngine {
 
         // In a full implementation, we'd cache the logical plan
         // For now, just validate the SQL
-        let _ = self.ctx.sql(sql).await?;
+        let _ = self.plan_read_only(sql).await?;
 
         Ok(handle)
     }
